@@ -384,11 +384,11 @@ def rule_f(ctx: Context, R: Reporter, vf: FuncInfo):
 def run(ctx: Context, R: Reporter):
     tf = trim_fn(ctx)
     vf = volume_fn(ctx)
-    rule_abc(ctx, R, tf)
+    R.guard(rule_abc, ctx, R, tf)
     ef = [f for f in ess_fns(ctx) if "log" not in f.params[0]]
-    rule_d(ctx, R, [tf, vf] + ef)
-    rule_e(ctx, R)
-    rule_f(ctx, R, vf)
+    R.guard(rule_d, ctx, R, [tf, vf] + ef)
+    R.guard(rule_e, ctx, R)
+    R.guard(rule_f, ctx, R, vf)
 
 
 def variants():
